@@ -150,7 +150,10 @@ pub fn create_number_constructor(interp: &mut Interpreter) -> Gc<JsObject> {
     interp
         .number_prototype
         .borrow_mut()
-        .set_property(constructor_key, JsValue::Object(constructor.clone()));
+        .define_property(
+            constructor_key,
+            crate::value::Property::with_attributes(JsValue::Object(constructor.clone()), true, false, true),
+        );
 
     constructor
 }
